@@ -16,6 +16,7 @@ REGISTRY = {
     'C04': ('checks.layout', 'check_c04', 'model_checking'),
     'C05': ('checks.layout', 'check_c05', 'model_checking'),
     'C06': ('checks.layout', 'check_c06', 'model_checking'),
+    'C09': ('checks.comments', 'check_c09', 'other'),
     'C10': ('checks.limits', 'check_c10', 'other'),
     'C11': ('checks.limits', 'check_c11', 'other'),
     'C13': ('checks.walk', 'check_c13', 'model_checking'),
